@@ -114,7 +114,7 @@ pub fn single_ops(thorough: bool) -> Vec<Op> {
 
 /// operators that deliver inner observables: last position only
 pub fn direct_ops(thorough: bool) -> Vec<Op> {
-  let mut v = vec![Op::Window(1), Op::Window(2), Op::Window(3), Op::GroupByParity];
+  let mut v = vec![Op::Window(1), Op::Window(2), Op::Window(3), Op::GroupByParity, Op::WindowDeferred(2), Op::GroupByParityDeferred];
   if thorough {
     v.push(Op::Window(4));
   }
@@ -391,7 +391,18 @@ fn refine(p: &Node, class: &str, case: &Case) -> String {
 }
 
 pub fn eval_case(prop: &str, case: &Case, oracles: &[Oracle], st: &mut Stats, depth: usize, tainted: &HashSet<String>) {
-  let opts = RunOpts { check_tokens: oracles.contains(&Oracle::Release) };
+  eval_case_x(prop, case, oracles, st, depth, tainted, false);
+  // pipelines through ref_count()/replay(): once more with the caller dropping the Observable value right
+  // after the last subscribe - the subscriptions alone have to keep the sharing machinery alive
+  let shares = case.pipeline.ops().iter().any(|o| matches!(o, Op::RefCount | Op::ReplayConn));
+  let nests = case.acts.iter().any(|a| matches!(a, Act::Nest { .. }));
+  if shares && !nests && !oracles.contains(&Oracle::Release) {
+    eval_case_x(prop, case, oracles, st, depth, tainted, true);
+  }
+}
+
+fn eval_case_x(prop: &str, case: &Case, oracles: &[Oracle], st: &mut Stats, depth: usize, tainted: &HashSet<String>, drop_early: bool) {
+  let opts = RunOpts { check_tokens: oracles.contains(&Oracle::Release), drop_pipeline_early: drop_early };
   let real = run_real(case, &opts);
   st.runs += 1;
   st.steps += case.acts.len() as u64;
